@@ -185,7 +185,8 @@ def read_scales(mem, op, acc, nch):
         raw = mem.region(region)[base:base + ln]
         chans = list(range(core, nch, len(rngs)))
         if len(raw) < 10 * len(chans):
-            raise Unsupported("scale stream shorter than the channel count")
+            raise StreamDefect("the scale stream programmed for core %d of this operation (%d bytes at %#x, region %s) is shorter than the %d records of 10 bytes "
+                               "its channels need" % (core, ln, base, region, len(chans)))
         for j, ch in enumerate(chans):
             r = raw[10 * j:10 * j + 10].astype(np.int64)
             b = int(r[0] | (r[1] << 8) | (r[2] << 16) | (r[3] << 24) | (r[4] << 32))
